@@ -41,4 +41,14 @@ theorem parsers_as_modelled :
   refine ⟨?_, ?_, ?_, ?_, ?_, ?_⟩ <;> rfl
 
 
+/-- today's Conn.read is the modelled one (the bounded header read of header_read_bounded) -/
+theorem frame_source_as_modelled :
+    Gen.stmts_connRead =
+      ["p, err := c.br.Peek(n)",
+        "if err == io.EOF { err = errUnexpectedEOF }",
+        "_, _ = c.br.Discard(len(p))",
+        "return p, err"] := by
+  rfl
+
+
 end WS.Props.C07Tie
